@@ -272,7 +272,16 @@ def battery_lagsnap(m, w, ops=(0, 1), leader=N1, lag=None, do_compact=True):
     return w
 
 
-SEEDS = dict(voted=voted, battery_lagsnap=battery_lagsnap, ahead=ahead, lagging_newleader=lagging_newleader, m_deposed=m_deposed, split=split, version_snap=version_snap, fresh=fresh, steady=steady, lagging=lagging, lagging_snap=lagging_snap, deposed=deposed,
+def candidates(m, w, who=(N1, N2)):
+    """Several nodes time out at the same moment: all are candidates of the same term, every vote
+    request is in flight."""
+    w = m.connect_all(w)
+    for n in who:
+        w = m.do(w, ('T', n, m.cfg.tmin + 0.001))
+    return w
+
+
+SEEDS = dict(voted=voted, candidates=candidates, battery_lagsnap=battery_lagsnap, ahead=ahead, lagging_newleader=lagging_newleader, m_deposed=m_deposed, split=split, version_snap=version_snap, fresh=fresh, steady=steady, lagging=lagging, lagging_snap=lagging_snap, deposed=deposed,
              deposed_snap=deposed_snap, deposed_twice=deposed_twice, pending=pending, reconnect_pipeline=reconnect_pipeline,
              forwarded=forwarded, fig8=fig8)
 
